@@ -18,12 +18,12 @@ def run(ctx):
     q = ctx.quick
     inv = ["C35", "GhostOnce", "GhostOwn"]
     # the design: all interleavings, the L2 monitor and the statement on the ghost completions
-    ctx.model_check("design", "MCClientTransport", dict(BASE, MaxDepth=8 if q else 12, MaxChunks=4 if q else 6), inv, view="MView")
+    ctx.model_check("design", "MCClientTransport", dict(BASE, MaxDepth=8 if q else 11), inv, view="MView")
     if not q:
         ctx.model_check("design_tight_queue", "MCClientTransport",
-                        dict(BASE, QueueCap=1, MaxInflight=1, MaxPending=2, MaxDepth=12, MaxChunks=5), inv, view="MView")
+                        dict(BASE, QueueCap=1, MaxInflight=1, MaxPending=2, MaxDepth=11, MaxChunks=5), inv, view="MView")
         ctx.model_check("design_4_requests", "MCClientTransport",
-                        dict(BASE, NReq=4, MaxInflight=3, QueueCap=2, MaxPending=0, MaxDepth=10, CBs={True}), inv, view="MView")
+                        dict(BASE, NReq=4, MaxInflight=3, QueueCap=2, MaxPending=0, MaxDepth=9, CBs={True}), inv, view="MView")
         # the monitor is not vacuous: a transport that answers a timed-out request but keeps it pending is caught
         ctx.model_check("mutant_keep_timed_out", "MCClientTransport", dict(BASE, MutKeepTimedOut=True, MaxDepth=8), ["C35"],
                         view="MView", expect_violation="C35")
@@ -35,10 +35,10 @@ def run(ctx):
     two = [["Submit", True, "long"], ["Submit", True, "short"], ["Poll"], ["Poll"]]
     # one pending, one queued, one waiting for room
     three = [["Submit", True, "short"], ["Submit", True, "long"], ["Poll"], ["Submit", True, "short"]]
-    for nm, c, cap in (("exhaustive", dict(BASE, ForceClose=True, MaxDepth=5 if q else 7, MaxChunks=4, Classes={"long"} if q else {"short", "long"}),
+    for nm, c, cap in (("exhaustive", dict(BASE, ForceClose=True, MaxDepth=5 if q else 6, MaxChunks=4, Classes={"long"} if q else {"short", "long"}),
                         1000 if q else 25000),
                        ("exhaustive_two_pending", dict(BASE, ForceClose=True, Script=two, CBs={True}, CloseStats={"Good"},
-                                                       MaxDepth=4 + (4 if q else 6), MaxChunks=5), 1500 if q else 40000),
+                                                       MaxDepth=4 + (4 if q else 5), MaxChunks=5), 1500 if q else 40000),
                        ("exhaustive_tight", dict(BASE, ForceClose=True, Script=three, QueueCap=1, MaxInflight=1, MaxPending=2, CBs={True},
                                                  CloseStats={"Good"}, MaxDepth=4 + (4 if q else 6), MaxChunks=5), 1000 if q else 30000)):
         h, r = ctx.gen(nm, "GenClientTransport", c)
